@@ -149,7 +149,7 @@ Lemma fax_geometry_post k columns rows :
                  match snd g with None => rows = 0 | Some r => r = rows /\ 0 < r < U16 end) (fax_geometry k columns rows).
 Proof.
   destruct fax_guards_table as (G1 & G2 & G3 & _ & G5).
-  unfold fax_geometry. rewrite G1, G2, G3, G5. change (1 =? 1) with true. cbv iota.
+  unfold fax_geometry. rewrite G1, G2, G3, G5. change (1 =? 1) with true. cbv iota. rewrite Bool.andb_true_r.
   destruct (0 <=? k)%Z; [cbn; exact I|].
   destruct ((columns =? 0) || (U16 <=? columns)) eqn:Ec; [cbn; exact I|]. cbn [bind].
   apply Bool.orb_false_iff in Ec. destruct Ec as [E1 E2]. apply N.eqb_neq in E1. apply N.leb_gt in E2.
